@@ -29,6 +29,9 @@ pub enum Act {
     Emit { c: u32 },
     /// same, but the item is hashed by the library (`update`) instead of injected as a coupon
     EmitItem { v: u64 },
+    /// an item (u128) constructed so that its MurmurHash3 digest is exactly (h1, h2): hash words no
+    /// random item has - all zeros, single bits, 63 / 64 leading zeros
+    EmitKey { h1: u64, h2: u64 },
     /// group A's channel re-delivers an earlier message (to all three, same position)
     DupA { pick: u32 },
     /// deliver one in-flight message to group-B replica `r`; `keep` = the ack is lost, the
@@ -45,6 +48,11 @@ const STDS: [NumStdDev; 3] = [NumStdDev::One, NumStdDev::Two, NumStdDev::Three];
 
 pub fn item_coupon(v: u64) -> u32 {
     crate::scen::c16::hll_coupon_ref(&v.to_le_bytes())
+}
+
+thread_local! {
+    /// prescribed-hash keys of the run in progress (side table: in-flight messages carry an index)
+    static KEYS: std::cell::RefCell<Vec<u128>> = const { std::cell::RefCell::new(Vec::new()) };
 }
 
 struct Replica {
@@ -270,7 +278,19 @@ impl Scenario for C02 {
         let check_every = (*rng.pick(&[1usize, 4, 16, 64, 256])).max(k / 64);
         let mut acts = vec![];
         for (i, &c) in coupons.iter().enumerate() {
-            if hashed {
+            if hashed && rng.chance(1, 8) {
+                let word = |rng: &mut Rng| match rng.below(7) {
+                    0 => 0,
+                    1 => 1,
+                    2 => u64::MAX,
+                    3 => 1u64 << rng.below(64),
+                    4 => rng.below(8),
+                    5 => u64::MAX << rng.below(64),
+                    _ => rng.next_u64(),
+                };
+                let (h1, h2) = (word(rng), word(rng));
+                acts.push(Act::EmitKey { h1, h2 });
+            } else if hashed {
                 acts.push(Act::EmitItem { v: c as u64 | (rng.next_u64() << 32) });
             } else {
                 acts.push(Act::Emit { c });
@@ -295,6 +315,7 @@ impl Scenario for C02 {
 
     fn execute(&self, cfg: &Cfg, acts: &[Act], st: &mut RunStats) -> Result<(), Violation> {
         let lg_k = cfg.lg_k.clamp(4, 21);
+        KEYS.with(|k| k.borrow_mut().clear());
         let mk = |t: HllType| Replica { sk: HllSketch::new(lg_k, t), model: HllModel::new(lg_k), inflight: vec![], last_mode: 0 };
         let mut a: Vec<Replica> = TYPES.iter().map(|t| mk(*t)).collect();
         let mut b: Vec<Replica> = TYPES.iter().map(|t| mk(*t)).collect();
@@ -305,6 +326,11 @@ impl Scenario for C02 {
 
         fn apply(rp: &mut Replica, c: u32, item: Option<u64>, st: &mut RunStats) -> Result<(), Violation> {
             match item {
+                // keys are tagged with the top bit of the side channel: the value is an index into KEYS
+                Some(v) if v >> 63 == 1 => {
+                    let key = KEYS.with(|k| k.borrow()[(v & 0xffff_ffff) as usize]);
+                    lib_call("HllSketch::update(u128 key)", || rp.sk.update(key))?
+                }
                 Some(v) => lib_call("HllSketch::update", || rp.sk.update(v))?,
                 None => lib_call("HllSketch::verif_update_with_coupon", || rp.sk.verif_update_with_coupon(c))?,
             }
@@ -316,13 +342,23 @@ impl Scenario for C02 {
         for act in acts {
             st.ticks += 1;
             match act {
-                Act::Emit { .. } | Act::EmitItem { .. } | Act::DupA { .. } => {
+                Act::Emit { .. } | Act::EmitItem { .. } | Act::EmitKey { .. } | Act::DupA { .. } => {
                     let (c, item) = match act {
+                        Act::EmitKey { h1, h2 } => {
+                            let bytes = crate::refhash::murmur_preimage16(9001, *h1, *h2);
+                            let idx = KEYS.with(|k| {
+                                k.borrow_mut().push(u128::from_le_bytes(bytes));
+                                k.borrow().len() - 1
+                            });
+                            st.probe("item_with_prescribed_hash");
+                            // the model's coupon comes from the reference derivation over the key's bytes
+                            (crate::scen::c16::hll_coupon_ref(&bytes), Some((1u64 << 63) | idx as u64))
+                        }
                         Act::Emit { c } => {
                             let v = (*c >> 26).clamp(1, 63);
                             ((v << 26) | (*c & 0x3ff_ffff), None)
                         }
-                        Act::EmitItem { v } => (item_coupon(*v), Some(*v)),
+                        Act::EmitItem { v } => (item_coupon(*v & (u64::MAX >> 1)), Some(*v & (u64::MAX >> 1))),
                         Act::DupA { pick } => {
                             if log_a.is_empty() {
                                 continue;
